@@ -263,7 +263,7 @@ SELFTESTS = [selftest_ref]
 
 def obligations(tier: str):
     mx = 2 if tier == "quick" else 3
-    t = 90 if tier == "quick" else 600
+    t = 90 if tier == "quick" else 400
     obls = []
     for ka in KINDS:
         for kb in KINDS:
